@@ -199,6 +199,9 @@ def run_life(L: dict) -> dict:
             elif L["exit"] == "external_stop":
                 await asyncio.sleep(0.015)
                 d.stop()
+            elif L["exit"] == "stop_during_init":
+                await asyncio.sleep(0.0005)        # the producers are still inside initialize()
+                d.stop()
             elif L["disp"] == "rt" and L["exit"] in ("exhausted", "handler_error_continue"):
                 await asyncio.sleep(0.5)          # a realtime dispatcher never runs out of events by itself
                 d.stop()
